@@ -34,6 +34,8 @@ class Client:
         self.rewrite = rewrite
         self.seen = {}          # url -> (status, bytes the validator received)
         self.order = []
+        self.pass_no = 0
+        self.first_pass = {}
         self.manifests = []     # manifest documents in the order the validator received them
 
     class Resp:
@@ -69,6 +71,7 @@ class Client:
                 st, data = out
         self.seen[url] = (st, data)
         self.order.append(url)
+        self.first_pass.setdefault(url, getattr(self, 'pass_no', 0))
         if url.split('?')[0].endswith('.mpd') and st == 200:
             self.manifests.append(data)
         return Client.Resp(st, data, r.headers, r.mimetype)
@@ -116,6 +119,7 @@ async def session(env, clock, url, mode, encrypted, rewrite=None, refreshes=0, d
             mup = dv.manifest.minimumUpdatePeriod
             step = mup.total_seconds() if mup is not None and mup.total_seconds() > 0 else 4
             clock.set(clock.now + datetime.timedelta(seconds=step))
+            cl.pass_no = i + 1
             if not await dv.refresh():
                 break
             await dv.validate()
@@ -136,8 +140,12 @@ async def session(env, clock, url, mode, encrypted, rewrite=None, refreshes=0, d
                 segs += media_segments(dv)
             dv.c18_finished = dv.finished()
             dv.c18_refreshes = n
+        # what a caller holds when the session is over: the validator's current errors and its history
+        final = list(dv.get_errors())
         for h in dv.get_validation_history():
             errors += list(h.errors)
+            final += list(h.errors)
+        dv.c18_final = list({(e.msg, tuple(e.location)): e for e in final}.values())
     uniq = {}
     for e in errors:
         uniq[(e.msg, tuple(e.location))] = e
@@ -531,6 +539,54 @@ def corruption_suite(ctx, env):
                 enc = 'enc' in turl
                 reqs.append(facts(st, data, mine[0][2], enc, mine[0][1].dash_timescale(), trex_default(cl, turl)))
                 meta.append((inp, got))
+    # ---- a segment first fetched AFTER a refresh is corrupted (what the validator carries from one pass to the next - the
+    # expected sequence number with a $Time$ template, the expected decode time with a $Number$ template - must still apply);
+    # judged on the report at the end of the session
+    for cfg, cname, fn, expect in ((('hand_made.mpd', 'live', '', 'depth=20&timeline=1'), 'sequence_number+7 after a refresh', lambda d, tol: corrupt_seq(d, 7), 'ESeq'),
+                                   (('hand_made.mpd', 'live', '', 'depth=20'), 'tfdt+10*tolerance after a refresh', lambda d, tol: corrupt_tfdt(d, 10 * tol + 10), 'EAlmost')):
+        url = url_of(cfg)
+        clock = Clock(utc(2024, 3, 5, 12, 0, 7))
+        with clock:
+            dv0, cl0, errors0, segs0 = run_session(env, clock, url, cfg[1], False, refreshes=3, duration=40)
+        if dv0 is None:
+            continue
+        later = [u for u in cl0.order if cl0.first_pass.get(u, 0) >= 1 and '/bbb_v' in u and '/init.' not in u and not u.split('?')[0].endswith('.mpd')
+                 and cl0.seen[u][0] == 200]
+        if not later:
+            ctx.dist('corruption:no-segment-after-refresh')
+            continue
+        turl = later[0]
+        tol_ms = [ms for a, r, ms in segs0 if ms.url == turl]
+        tol = int(tol_ms[0].tolerance) if tol_ms else 1000
+
+        def rewrite2(u, st, data, headers, turl=turl, fn=fn, tol=tol):
+            if u != turl:
+                return None
+            try:
+                out = fn(data, tol)
+            except Exception:  # noqa
+                return None
+            return (st, out) if out is not None else None
+        clock = Clock(utc(2024, 3, 5, 12, 0, 7))
+        with clock:
+            try:
+                dv, cl, errors, segs = run_session(env, clock, url, cfg[1], False, rewrite=rewrite2, refreshes=3, duration=40)
+            except Exception as e:  # noqa
+                ctx.violation('the validator raised %s on %s with %s corrupted (%s)' % (type(e).__name__, url, turl, cname), {'url': url, 'corruption': cname})
+                continue
+        ctx.count('validator:corrupted-session')
+        inp = {'session': url, 'segment': turl, 'corruption': cname, 'first_fetched_in_pass': cl0.first_pass.get(turl)}
+        if turl not in cl.seen or cl.seen[turl] == cl0.seen.get(turl):
+            ctx.dist('corruption:not-applied:%s' % cname)
+            continue
+        mine = [ms for aa, rr, ms in segs if ms.url == turl]
+        final = getattr(dv, 'c18_final', errors)
+        got = sorted({classify(e.msg) for e in (seg_errors_of(final, mine[0]) if mine else [])} - {None})
+        if expect not in got:
+            ctx.violation('%s (%s): the report at the end of the session has no %s error located at that segment (it lists %s)'
+                          % (cname, turl, expect, [e.msg[:80] for e in final[:3]]), inp)
+        else:
+            ctx.nontriv(('corruption-after-refresh', url, cname))
     return reqs, meta
 
 
@@ -566,6 +622,14 @@ def manifest_corruptions(ctx, env):
                 return st, re.sub(rb'availabilityStartTime="(\d{4})-', lambda m: b'availabilityStartTime="' + str(int(m.group(1)) - 1).encode() + b'-', data, count=1)
         return None
 
+    def ast_change_once(u, st, data, headers):
+        # only the second manifest of the session is altered: the error must survive the refreshes that follow
+        if u.split('?')[0].endswith('.mpd') and st == 200:
+            state['n'] += 1
+            if state['n'] == 2:
+                return st, re.sub(rb'availabilityStartTime="(\d{4})-', lambda m: b'availabilityStartTime="' + str(int(m.group(1)) - 1).encode() + b'-', data, count=1)
+        return None
+
     def init_retype(box):
         def f(u, st, data, headers):
             if '/init.' in u and st == 200:
@@ -579,6 +643,8 @@ def manifest_corruptions(ctx, env):
              ('MPD@mediaPresentationDuration removed', 'vod', '', drop_attr('mediaPresentationDuration'), 0, 'uration'),
              ('SegmentTimeline gap', 'vod', 'timeline=1', timeline_gap, 0, ''),
              ('availabilityStartTime changed across a refresh', 'live', 'timeline=1', ast_change, 1, 'availabilityStartTime has changed'),
+             ('mid-session: availabilityStartTime changed in the second of five manifests', 'live', 'timeline=1', ast_change_once, 4,
+              'availabilityStartTime has changed'),
              ('init segment: moov/mvex retyped', 'vod', '', init_retype('moov/mvex'), 0, ''),
              ('init segment: moov retyped', 'vod', '', init_retype('moov'), 0, '')]
     for name, mode, extra, fn, refreshes, needle in cases:
@@ -598,7 +664,7 @@ def manifest_corruptions(ctx, env):
                 continue
         ctx.count('validator:manifest-corruption')
         inp = {'url': url, 'corruption': name}
-        if dv is not None and cl.manifests and not name.startswith('init') and not name.startswith('SegmentTimeline'):
+        if dv is not None and cl.manifests and not name.startswith('init') and not name.startswith('SegmentTimeline') and not name.startswith('mid-session'):
             try:
                 MREQS.append(manifest_facts(mode, cl.manifests))
                 MMETA.append((dict(inp), sorted({classify_manifest(e.msg) for e in errors} - {None})))
@@ -607,11 +673,13 @@ def manifest_corruptions(ctx, env):
         if dv is None:
             ctx.nontriv(('manifest-corruption', name))          # refusing to load the document is a report
             continue
-        if not errors:
-            ctx.violation('%s: the validator reports no error' % name, inp, key='undetected:%s' % name)
-        elif needle and not any(needle in e.msg for e in errors):
-            ctx.violation('%s: no error mentions the corrupted item (reported: %s)' % (name, [e.msg[:80] for e in errors[:3]]), inp,
-                          key='mislocated:%s' % name)
+        final = getattr(dv, 'c18_final', errors)      # the report at the END of the session (current errors + history)
+        if not final:
+            ctx.violation('%s: the validator reports no error%s' % (name, ' at the end of the session (it did while it ran)' if errors else ''),
+                          inp, key='undetected:%s' % name)
+        elif needle and not any(needle in e.msg for e in final):
+            ctx.violation('%s: no error of the final report mentions the corrupted item (reported: %s)' % (name, [e.msg[:80] for e in final[:3]]),
+                          inp, key='mislocated:%s' % name)
         else:
             ctx.nontriv(('manifest-corruption', name))
 
